@@ -153,7 +153,7 @@ var extractCmd = &cobra.Command{
 		refseq := cmd.Flags().Changed("ref-seq")
 
 		al := <-aligns.Achan
-		if aligns.Err != nil {
+		if al == nil {
 			err = aligns.Err
 			io.LogError(err)
 			return
